@@ -9,6 +9,7 @@ package main
 import (
 	"go/ast"
 	"go/types"
+	"strings"
 )
 
 func init() {
@@ -17,7 +18,8 @@ func init() {
 		return
 	}
 	run := p.run
-	p.run = func(r *Run) { run(r); c19ImportAsked(r); c10PooledSlots(r, "R-7") }
+	p.run = func(r *Run) { run(r); c19ImportAsked(r); c10PooledSlots(r, "R-7"); c19Imported(r) }
+	p.explain += " R-8: the importer chain an embedder composes (native.CombinedImporter) returns at the first package or error: a deny importer placed first is not overridden by a later one (C22's rule on CombinedImporter.Import, re-used). R-9: the environment of a goroutine's VM is the run's environment (C14 R-2, re-used: its print hook and context are the configured ones)."
 	p.explain += " R-7: in the function taking the argument slice from the pool, no branch condition reads the previous value of a slot (a stale native.Env of an earlier run would select that run's print hook)."
 	p.explain += " R-6: in the function that calls Importer.Import, every success return of the branch holding the call passes through the call."
 }
@@ -85,4 +87,32 @@ func c19ImportAsked(r *Run) {
 		r.Ob(R, "compiler#Importer.Import", 0).Unknown("no call of an importer with success returns after it was found: the import gate changed shape")
 	}
 	r.Require(R, 3)
+}
+
+// c19Imported imports, by sub-runs, the obligations of C22 about CombinedImporter.Import (R-8) and of C14
+// R-2 about the environment handed to goroutine VMs (R-9); added after seeded changes C19-7 and C19-9.
+func c19Imported(r *Run) {
+	for _, imp := range []struct {
+		prop, rule, as string
+		keep             func(o *Obl) bool
+		min              int
+	}{
+		{"C22", "", "R-8", func(o *Obl) bool { return strings.Contains(o.Construct, "CombinedImporter") }, 1},
+		{"C14", "R-2", "R-9", func(o *Obl) bool { return true }, 4},
+		{"C14", "R-1", "R-9", func(o *Obl) bool { return strings.Contains(o.Construct, "startGoroutine") }, 5},
+	} {
+		p := registry[imp.prop]
+		if !r.Anchor(imp.as, "the "+imp.prop+" rule set", p != nil) {
+			continue
+		}
+		sub := NewRun(imp.prop, r.Tier, r.P)
+		safeRun(sub, p.run)
+		for _, o := range sub.Obls {
+			if (imp.rule == "" || o.Rule == imp.rule) && imp.keep(o) {
+				o.Rule = imp.as
+				r.Obls = append(r.Obls, o)
+			}
+		}
+		r.Require(imp.as, imp.min)
+	}
 }
